@@ -80,6 +80,11 @@ fn get_4digit_str(a_str: &str, iteration: u16) -> Cow<'_, str> {
             if needed_str > len_str {
                 Cow::Owned(format!("{}{:0len$}", a_str, iteration, len = 4 - len_str))
             } else {
+                // non ascii chars: don't slice within a char
+                let mut needed_str = needed_str;
+                while !a_str.is_char_boundary(needed_str) {
+                    needed_str -= 1;
+                }
                 Cow::Owned(format!("{}{}", &a_str[0..needed_str], iteration))
             }
         }
